@@ -347,6 +347,20 @@ def r18_10(prog, rep):
                 d = x[1][1][2][0]
                 if not (x[2] == d and x[3][0] in ("tuple", "list") and x[3][1] == (d,)):
                     one_name = False
+    if not one_name:
+        # the statement form (possibly in a helper the factory calls): `if isinstance(d, str): names.append(d)` -- the
+        # declaration itself is recorded as the one name under the str test, and iterated only otherwise
+        import ast as _ast
+
+        nodes = [f.node] + [g.node for cn in sorted(E.callees(prog, f)) for g in [prog.functions.get(cn)] if g is not None and g.module is f.module and g.name.startswith("_")]
+        for nd in nodes:
+            for st in _ast.walk(nd):
+                if isinstance(st, _ast.If) and isinstance(st.test, _ast.Call) and _ast.unparse(st.test.func) == "isinstance" and len(st.test.args) == 2 and _ast.unparse(st.test.args[1]) == "str":
+                    d = _ast.unparse(st.test.args[0])
+                    records = any(isinstance(c, _ast.Call) and isinstance(c.func, _ast.Attribute) and c.func.attr in ("append", "add") and [_ast.unparse(a) for a in c.args] == [d] for b in st.body for c in _ast.walk(b)) or any(isinstance(y, _ast.Yield) and y.value is not None and _ast.unparse(y.value) == d for b in st.body for y in _ast.walk(b))
+                    iterates = any(isinstance(c, (_ast.For, _ast.comprehension)) and _ast.unparse(c.iter) == d for b in st.body for c in _ast.walk(b))
+                    if records and not iterates:
+                        one_name = True
     rep.check(one_name, "R18.10", f.qualname, f.loc, "a string-valued __slots__ is one name", "a string-valued __slots__ ('value') is iterated character by character: AttributeError on 'v'", detail="slots-string")
 
 
@@ -389,32 +403,41 @@ def r18_8(prog, rep, rule="R18.8"):
     seen = 0
     missing, lossy = set(), set()
     two_ok = True
-    for p, r in P.returns(P.paths_of(prog, f)):
+    def abstract(x):
+        if x[0] == "call" and (T.refname(x[1]) == "builtins.next" or (x[1][0] == "attr" and x[1][2] == "peek")):
+            return ("param", "E")
+        if x[0] == "cmp" and T.is_call_to(x[2], "builtins.len"):
+            return ("const", True)
+        return None
+
+    is_peek = lambda x: x[0] == "call" and (T.refname(x[1]) == "builtins.next" or (x[1][0] == "attr" and x[1][2] == "peek"))  # noqa: E731
+    # every exit that can answer "pairs": its flag, together with the tests on the peeked element that lead to it (the class
+    # test may sit in the flag expression or -- as statements, possibly in a helper of its own -- in the guards of the path)
+    exits = []
+    for p, r in P.returns(P.spaths(prog, f)):
         if r[0] != "tuple" or len(r[1]) != 2:
             continue
         flag = r[1][0]
         if flag == ("const", False):
             continue
+        tests = [(g, pol) for g, pol in p.guards() if T.contains(g, is_peek)]
+        exits.append((flag, tests))
         seen += 1
-        two_ok = two_ok and T.contains(flag, lambda s: s[0] == "cmp" and s[1] == "==" and T.is_call_to(s[2], "builtins.len") and s[3] == ("const", 2))
-
-        def abstract(x):
-            if x[0] == "call" and (T.refname(x[1]) == "builtins.next" or (x[1][0] == "attr" and x[1][2] == "peek")):
-                return ("param", "E")
-            if x[0] == "cmp" and T.is_call_to(x[2], "builtins.len"):
-                return ("const", True)
-            return None
-
-        cond = T.rewrite(flag, abstract)
-        for cls in MUST + MUST_NOT:
-            v = pe.val(cond, {"E": C.TypeArg(cls, flags=frozenset({"instance"}))}, 0)
-            if v is None or v == ("raises",):
+        two_ok = two_ok and (T.contains(flag, lambda s: s[0] == "cmp" and s[1] == "==" and T.is_call_to(s[2], "builtins.len") and s[3] == ("const", 2)) or any(pol and T.contains(g, lambda s: s[0] == "cmp" and s[1] == "==" and T.is_call_to(s[2], "builtins.len") and s[3] == ("const", 2)) for g, pol in tests))
+    for cls in MUST + MUST_NOT:
+        env = {"E": C.TypeArg(cls, flags=frozenset({"instance"}))}
+        accepted = False
+        for flag, tests in exits:
+            vals = [(pe.val(T.rewrite(g, abstract), env, 0), pol) for g, pol in tests] + [(pe.val(T.rewrite(flag, abstract), env, 0), True)]
+            if any(v is None or v == ("raises",) for v, _ in vals):
                 rep.undecided(rule, f.qualname, f.loc, f"pairs test not evaluable on an element of class {cls}", detail="pairs-test")
                 return
-            if cls in MUST and not pe.truthy(v):
-                missing.add(cls)
-            if cls in MUST_NOT and pe.truthy(v):
-                lossy.add(cls)
+            if all(bool(pe.truthy(v)) == pol for v, pol in vals):
+                accepted = True
+        if cls in MUST and not accepted:
+            missing.add(cls)
+        if cls in MUST_NOT and accepted:
+            lossy.add(cls)
     ok = seen > 0 and two_ok and not missing and not lossy
     why = []
     if missing:
